@@ -719,6 +719,26 @@ def directed_cases():
         (Pd('o', X, X), t(X)),
         (Pd('l', X, Y), conj([t(X), S(';', S('=', Y, S('f', Z)), S('=', Y, S('g', Z, U))), t(Z)])),
     ], [Pd('m', X, Y, Z), Pd('n', X, Y), Pd('o', S('f', I(1), Z), U), Pd('o', X, I(2)), Pd('l', X, Y)])
+    # unsafe variables: a variable that first occurs in only some arms of a disjunction (there inside a
+    # structure) and is passed to the clause's LAST call; the arm without it is taken deterministically, so
+    # the environment is deallocated before the callee allocates its own (seeded change
+    # seeded/C07-missing-unsafe-marking-after-disjunction: put_value instead of put_unsafe_value)
+    O, W = V('O'), V('W')
+    A1, B1, C1 = V('A1'), V('B1'), V('C1')
+    case("unsafe", [
+        (Pd('mk', V('_M')), TRUE),
+        (Pd('nop', V('_N0')), TRUE),
+        (Pd('nop3', V('_N1'), V('_N2'), V('_N3')), TRUE),
+        (Pd('t2', R, O), conj([S(';', conj([S('=', R, A('a')), Pd('mk', S('f', W))]), S('=', R, A('b'))),
+                               Pd('d', W, O)])),
+        (Pd('t3', R, O), conj([S(';', conj([S('=', R, A('a')), S('=', Y, S('g', W, W))]),
+                                    S(';', S('=', R, A('b')), S('=', R, A('c')))), Pd('d', W, O)])),
+        (Pd('d', X, O), conj([S('=', A1, I(1)), S('=', B1, I(2)), S('=', C1, I(3)), Pd('nop3', A1, B1, C1), Pd('nop', I(0)),
+                              S(';', S('->', S('var', X), S('=', O, A('unbound'))), S('=', O, S('bound', X)))])),
+        (Pd('run', O), conj([Pd('t2', A('b'), O), Pd('nop', I(0))])),
+        (Pd('runa', O), conj([Pd('t2', A('a'), O), Pd('nop', I(0))])),
+        (Pd('run3', O), conj([Pd('t3', A('c'), O), Pd('nop', I(0))])),
+    ], [Pd('run', X), Pd('runa', X), Pd('run3', X), Pd('t2', Y, X), Pd('t3', Y, X)])
     # exceptions: answers before the ball, catch with partial match, rethrow, ball copy
     case("exc", T3 + [
         (Pd('u', X), S(';', t(X), S('throw', S('oops', X, Y, Y)))),
@@ -1293,7 +1313,9 @@ def run(ctx):
                   "features": c.get("features"), "query": k, "text": c["text"],
                   "model_result": mres, "impl_result": impl.get(qid)}
         if defect:
-            sig = {"family": "prog", "defect": defect}
+            r0 = impl.get(qid) or ""
+            symptom = "crash" if (r0 == "hang" or r0.startswith(("panic", "crash", "abort", "timeout"))) else "wrong-answer"
+            sig = {"family": "prog", "defect": defect, "symptom": symptom}
             detail += "\nthe difference disappears under the ISO-equivalent rewriting for: " + defect
         else:
             sig = {"family": "prog", "defect": "unclassified", "kind": problem[0],
